@@ -132,6 +132,17 @@ pub fn string_strategy(cfg: ClaimCfg) -> BoxedStrategy<String> {
         hz / 2 => vec(select(HAZARD_STRINGS), 1..5).prop_map(|v| v.concat()),
         20 => vec(char_strategy(), 0..12).prop_map(|v| v.into_iter().collect::<String>()),
         3 => vec(char_strategy(), 40..300).prop_map(|v| v.into_iter().collect::<String>()),
+        // rare: strings around the sizes of common I/O buffers (a disclosure of several KB: a
+        // portrait, a long free-text claim)
+        if cfg.big { 1 } else { 0 } => (select(&[1000usize, 3000, 3072, 4095, 4096, 4097, 6000, 8192, 12000][..]), select(&["a", "Zz", "é", "0123456789", "\\\"", " "][..]), char_strategy())
+            .prop_map(|(n, unit, tail)| {
+                let mut out = String::with_capacity(n + 8);
+                while out.len() < n {
+                    out.push_str(unit);
+                }
+                out.push(tail);
+                out
+            }),
     ]
     .boxed()
 }
